@@ -61,7 +61,12 @@ def sx_unit(job):
 
 
 def clause_of(obname):
-    return obname.split("#", 1)[0]
+    # "<unit>[#variant]/<clause>[@line]#<path>" -> without the path suffix (a '#' in the unit name is a variant marker)
+    i = obname.rfind("/")
+    j = obname.find("#", i if i >= 0 else 0)
+    name = obname[:j] if j >= 0 else obname
+    # line numbers ("@1234") are dropped: an edit elsewhere in the file must not rename the clause
+    return re.sub(r"@\d+", "@", name)
 
 
 def discharge_all(units, timeout_s, jobs, thorough, retry=frozenset()):
